@@ -30,10 +30,14 @@ def replay(info, ce):
             earlier = (x0 if len(x0) != len(x) or np.any(x0 != x) else x0 + 1.0, dt0, 'an earlier record')
         else:
             earlier = (x, dt, None)
-    for label in labels:
-        r = _one(info, x, dt, m, label, earlier)
-        if r['status'] == 'confirmed':
-            return r
+    # the model's time step first, then a battery over the format's range (steps of one second or more, round tens, the upper edge)
+    dts = [dt] + [d for d in (0.005, 0.02, 1.0, 2.5, 10.0, 20.0, 30.25, 100.0) if abs(d - dt) > 1e-9]
+    r = None
+    for dti in dts:
+        for label in labels:
+            r = _one(info, x, dti, m, label, earlier)
+            if r['status'] == 'confirmed':
+                return r
     return r
 
 
